@@ -230,6 +230,7 @@ def run_formulas(formulas, vals, ctx, tag):
     r = ctx.r
     tmon = TranslateMonitor.install(r)
     bi = 0
+    staged_i = [0]
     for off in range(0, len(formulas), PER_BOOK):
         batch = formulas[off:off + PER_BOOK]
         cells = dict(BASE)
@@ -280,6 +281,26 @@ def run_formulas(formulas, vals, ctx, tag):
                     report(r, ID, None, case, broken[f], 'whole formula consumed', monitor='parser-conservation')
                 if nontrivial:
                     r.nt((f, vi))
+                # operands "whether from the workbook or from an override": the same overrides handed over in two set_cells calls with
+                # an evaluation in between must give the value they give when handed over at once
+                staged_i[0] += 1
+                if len(val) >= 2 and staged_i[0] % 7 == 0 and book.cls is not None:
+                    half = len(val) // 2
+                    rr_, cc_ = wbspec.rc(addr)
+
+                    def staged():
+                        ex = pipeline.Executor().set_executed_class(class_object=book.cls)
+                        ex.set_cells([pipeline.ncell(0, *wbspec.rc(a), v) for a, v in val[:half]])
+                        pipeline.guarded(lambda: ex.get_cell(pipeline.ncell(0, rr_, cc_)).value, 'evaluate')
+                        ex.set_cells([pipeline.ncell(0, *wbspec.rc(a), v) for a, v in val[half:]])
+                        return ex.get_cell(pipeline.ncell(0, rr_, cc_)).value
+                    o2 = pipeline.guarded(staged, 'evaluate')
+                    r.ev()
+                    r.count('staged_override_evaluations')
+                    same_ = (o2.ok == out.ok) and (not out.ok or (type(o2.value) is type(out.value) and o2.value == out.value))
+                    if not same_:
+                        report(r, ID, None, dict(case, staged='set_cells(first half), evaluate, set_cells(second half), evaluate'), o2.brief(), out.brief(),
+                               monitor='overrides-staged-vs-at-once')
         if off == 0:
             r.sample({'formulas': batch[:4], 'valuations': [VALUATIONS[v] for v in vals][:2]})
 
